@@ -112,6 +112,13 @@ def instances(tier):
         if not any(i.name == nm for i in out):
             out.append(inst(nm.strip(), fn, timeout=timeout, sp=sp, **kw))
 
+    # knot vectors assigned as tuples (normalize_kv=False keeps the caller's object), splits on knots of full multiplicity included
+    add('split', h_split, spec('curve', (2,), ((2,),), rational=False, dim=2, tuple_kv=True), d=0)
+    add('split', h_split, spec('curve', (3,), ((3, 1),), rational=True, dim=2, tuple_kv=True), d=0)
+    add('split', h_split, spec('surface', (1, 2), ((1,), (2,)), rational=False, tuple_kv=True), timeout=1800, d=1)
+    add('split', h_split, spec('surface', (2, 1), ((2,), (1,)), rational=False, tuple_kv=True), timeout=1800, d=0)
+    add('decompose', h_decompose, spec('curve', (2,), ((2, 1),), rational=False, dim=2, tuple_kv=True), ddir='u')
+    add('decompose', h_decompose, spec('surface', (1, 2), ((1,), (2,)), rational=False, tuple_kv=True), timeout=1800, ddir='uv')
     # knot vectors moved by a symbolic offset of any magnitude
     add('split', h_split, spec('curve', (2,), ((1, 1),), rational=False, dim=2, shifted=True), d=0)
     add('split', h_split, spec('curve', (3,), ((2,),), rational=True, dim=2, shifted=True), d=0)
